@@ -98,6 +98,11 @@ def samefields():
         D("Kb", "type Kb = {K: string}", decls="^Kb$", istype=True, tva=0),
         D("kOf", "let kOf (s:string) =\n  {K=s}", deps=["Ka"], locals=["s"]),
         D("kbLen", "let kbLen (k:Kb) =\n  k.K", deps=["Kb"], locals=["k"]),
+        # different field sets whose names joined by _ coincide (a_b + c / a + b_c): a literal refers to the record with ITS field set only
+        D("Aaa", "type Aaa = {a_b: int; c: int}", decls="^Aaa$", istype=True, tva=0),
+        D("Zzz", "type Zzz = {a: int; b_c: int}", decls="^Zzz$", istype=True, tva=0),
+        D("mkZ", "let mkZ (n:int) =\n  {a=n; b_c=n + 1}", deps=["Zzz"], locals=["n"]),
+        D("mkA", "let mkA (n:int) =\n  {a_b=n; c=n + 1}", deps=["Aaa"], locals=["n"]),
     ]}
 
 
